@@ -66,24 +66,25 @@ type ChainCfg struct {
 }
 
 type ChainReq struct {
-	ID         int    `json:"id"`
-	Target     string `json:"target"` // route | post | notfound | badmethod | notacceptable | unsupported | plain | plainf | muxnotfound
-	AE         string `json:"accept_encoding,omitempty"`
-	PreCE      string `json:"writer_content_encoding,omitempty"`
-	N          int    `json:"payload"`
-	Chunks     []int  `json:"chunks,omitempty"`
-	PanicAt    string `json:"panic_at,omitempty"`
-	Flush      bool   `json:"flush,omitempty"`
-	Early      bool   `json:"early_close,omitempty"`
-	AddSvc     bool   `json:"add_service_afterwards,omitempty"`
-	WFail      int    `json:"client_gone_at_write,omitempty"` // k>0: the client's writer fails from underlying write #k-1 on
-	BodyGzip   bool   `json:"gzip_request_body,omitempty"`    // post target: the entity is sent gzip-coded and read with ReadEntity
-	PanicKind  int    `json:"panic_value_kind,omitempty"`     // 0 string, 1 error, 2 pointer to a struct implementing error, 3 struct with String, 4 runtime error (nil map)
-	CancelAt   string `json:"context_cancelled_at,omitempty"` // "start" or a point of the chain: the client went away, the request's context is done from there on
-	EarlyHints bool   `json:"handler_sends_103_early_hints_first,omitempty"`
-	NoStore    bool   `json:"handler_sets_cache_control_no_store,omitempty"`
-	FlushFirst bool   `json:"handler_flushes_before_first_write,omitempty"` // the streaming pattern: commit the header, then write
-	AddCE      bool   `json:"handler_adds_content_encoding_br,omitempty"`   // the route function declares its own payload br-coded: Header().Add, a layered coding
+	ID          int    `json:"id"`
+	Target      string `json:"target"` // route | post | notfound | badmethod | notacceptable | unsupported | plain | plainf | muxnotfound
+	AE          string `json:"accept_encoding,omitempty"`
+	PreCE       string `json:"writer_content_encoding,omitempty"`
+	N           int    `json:"payload"`
+	Chunks      []int  `json:"chunks,omitempty"`
+	PanicAt     string `json:"panic_at,omitempty"`
+	Flush       bool   `json:"flush,omitempty"`
+	Early       bool   `json:"early_close,omitempty"`
+	AddSvc      bool   `json:"add_service_afterwards,omitempty"`
+	WFail       int    `json:"client_gone_at_write,omitempty"` // k>0: the client's writer fails from underlying write #k-1 on
+	BodyGzip    bool   `json:"gzip_request_body,omitempty"`    // post target: the entity is sent gzip-coded and read with ReadEntity
+	PanicKind   int    `json:"panic_value_kind,omitempty"`     // 0 string, 1 error, 2 pointer to a struct implementing error, 3 struct with String, 4 runtime error (nil map)
+	PanicInRead bool   `json:"panic_inside_entity_reader,omitempty"`
+	CancelAt    string `json:"context_cancelled_at,omitempty"` // "start" or a point of the chain: the client went away, the request's context is done from there on
+	EarlyHints  bool   `json:"handler_sends_103_early_hints_first,omitempty"`
+	NoStore     bool   `json:"handler_sets_cache_control_no_store,omitempty"`
+	FlushFirst  bool   `json:"handler_flushes_before_first_write,omitempty"` // the streaming pattern: commit the header, then write
+	AddCE       bool   `json:"handler_adds_content_encoding_br,omitempty"`   // the route function declares its own payload br-coded: Header().Add, a layered coding
 
 	payload []byte
 	res     [2]*ChainRes // 0: simulated run, 1: sequential twin
@@ -188,6 +189,14 @@ func (e *chainEnv) crash(point string) {
 		}
 		panic(res.PanicVal)
 	}
+}
+
+// chainPanicky is an entity whose decoding reaches the crash point "handler:before".
+type chainPanicky struct{ e *chainEnv }
+
+func (p *chainPanicky) UnmarshalJSON([]byte) error {
+	p.e.crash("handler:before")
+	return nil
 }
 
 type chainPanicErr struct{ text string }
@@ -362,7 +371,11 @@ func (e *chainEnv) routeFunc(req *restful.Request, resp *restful.Response) {
 	}
 	res.SawParams = kv(req.PathParameters())
 	res.SawSel = req.SelectedRoutePath()
-	if r.Target == "post" && req.Attribute("gen") == nil && req.Request.Method == "POST" {
+	if r.Target == "post" && r.PanicInRead && req.Attribute("gen") == nil && req.Request.Method == "POST" {
+		// the crash point "handler:before" is reached inside the entity reader: user code (an
+		// UnmarshalJSON method) panics while ReadEntity holds the pooled decompressor
+		req.ReadEntity(&chainPanicky{e})
+	} else if r.Target == "post" && req.Attribute("gen") == nil && req.Request.Method == "POST" {
 		// read the entity (through a pooled decompressor when it is gzip-coded): its token is the request's own
 		var ent struct{ Tok string }
 		if err := req.ReadEntity(&ent); err != nil || ent.Tok != fmt.Sprintf("tok%d", r.ID) {
@@ -913,6 +926,7 @@ func genChainReq(tp *sim.Tape, cfg *ChainCfg, k chainKnobs, id int) *ChainReq {
 		if len(pts) > 0 {
 			r.PanicAt = pts[tp.G(len(pts))]
 			r.PanicKind = tp.G(5)
+			r.PanicInRead = r.Target == "post" && r.PanicAt == "handler:before" && tp.Bool()
 		}
 	} else if k.cancels > 0 && tp.Chance(k.cancels) {
 		_, pts := cfg.model(r)
